@@ -150,7 +150,8 @@ def gen_relative_program(rnd, base):
         if roll < 0.2:
             body.append(apm.blk(".blkb", apm.num(2 * rnd.randrange(0, 40))))
         elif roll < 0.3:
-            body.append(apm.data(".word", apm.num(rnd.randrange(0x10000))))
+            # (an operand-less '.word' / '.dword' is one zero word / two: its size does not depend on when it can be evaluated)
+            body.append(apm.data(".word", apm.num(rnd.randrange(0x10000))) if rnd.random() < 0.7 else apm.data(rnd.choice([".word", ".dword"])))
         else:
             body.append(("INSN", None))
     # resolve scopes: split into segments by ordinary labels
@@ -296,6 +297,43 @@ def gen_include_program(rnd, base):
     return apm.Program([apm.SrcFile("main.mac", main)], aux={"inc.mac": apm.SrcFile("inc.mac", inc)}), tags
 
 
+def gen_multifile_program(rnd, base):
+    """(F) three or four linked files that refer to each other's exported labels through branches (when in reach), relative and
+    relative-deferred operands and address words: every file starts where the previous one ended."""
+    from vlib import apm
+    n = rnd.choice([3, 3, 4])
+    tags = []
+    names = [f"gf{i}" for i in range(n)]
+    files = []
+    for i in range(n):
+        st = [apm.label(names[i], extern=True), apm.insn("nop")]
+        for _ in range(rnd.randrange(1, 5)):
+            t = ("sym", rnd.choice(names))
+            form = rnd.choice(["rel", "reld", "word", "jsr", "br", "bare"])
+            if form == "rel":
+                st.append(apm.insn("mov", ("rel", t), ("reg", rnd.randrange(6)))); tags.append(f"multifile{n}|rel")
+            elif form == "reld":
+                st.append(apm.insn("jmp", ("reld", t))); tags.append(f"multifile{n}|reld")
+            elif form == "jsr":
+                st.append(apm.insn("jsr", ("reg", 7), ("rel", ("bin", "+", t, apm.num(2))))); tags.append(f"multifile{n}|rel+k")
+            elif form == "br":
+                st.append(apm.insn(rnd.choice(["br", "bne"]), ("br", t))); tags.append(f"multifile{n}|branch")
+            elif form == "bare":
+                st.append(apm.data(rnd.choice([".word", ".dword"])))
+            else:
+                st.append(apm.data(".word", t))
+        st.append(apm.blk(".blkb", apm.num(2 * rnd.randrange(0, 12))))
+        files.append(apm.SrcFile(f"f{i}.mac", st))
+    site = rnd.choice(["first", "last", "none", "middle"])
+    if site == "first":
+        files[0].stmts.insert(0, apm.link(apm.num(base)))
+    elif site == "last":
+        files[-1].stmts.append(apm.link(apm.num(base)))
+    elif site == "middle":
+        files[1].stmts.insert(rnd.randrange(len(files[1].stmts) + 1), apm.link(apm.num(base)))
+    return apm.Program(files), [f"{t}|link-{site}" for t in tags]
+
+
 def gen_shadow_program(rnd, base):
     """(D) two linked files; the later one has a private label with the name an earlier file exports, and branches / relative
     operands that name it BEFORE its own definition: they mean the file's own label."""
@@ -377,6 +415,13 @@ def run_shard(spec):
         res["evaluations"] += 1
         res["distinct"].append(f"top-of-memory|{form}")
         res["sets"]["rel_shapes"].append(f"top-of-memory|{form}")
+    for i in range(nrel // 4):
+        prog, tags = gen_multifile_program(rnd, rnd.choice(BASES))
+        case = {"kind": "inc", "prog": apm.to_json(prog)}
+        res["violations"].extend(run_case(case, cnt))
+        res["evaluations"] += 1
+        res["distinct"].extend(tags)
+        res["sets"]["rel_shapes"].extend(tags)
     for i in range(nrel // 4):
         prog, tags = gen_shadow_program(rnd, rnd.choice(BASES))
         case = {"kind": "inc", "prog": apm.to_json(prog)}
